@@ -49,8 +49,9 @@ SolClause(c, r, s) ==
       (* the goal state / centre or the distance to (a state of) the goal region, so any value    *)
       (* between "distance minus threshold" and "distance" agrees with the last state             *)
       [] c = "approxDifference" ->
+             (* (with several goal states the planner may measure to one it knows already, not the nearest) *)
              (s.approx =>
-                 /\ s.diff <= s.endDist + Tol
+                 /\ s.diff <= (IF "endDistMax" \in DOMAIN s THEN s.endDistMax ELSE s.endDist) + Tol
                  /\ s.diff >= (IF s.endDist > r.thrMicro THEN s.endDist - r.thrMicro ELSE 0) - Tol)
       [] c = "exactEndsInGoalCell" ->
              (~s.approx /\ r.thr = "tiny" /\ ~s.cellsTruncated /\ Len(s.cells) >= 1
@@ -75,7 +76,8 @@ CallClause(c, r) ==
       [] c = "approxTopIsApprox" -> (r.status = "APPROXIMATE" /\ Len(r.sols) >= 1 => r.sols[1].approx)
       (* model-determined facts *)
       [] c = "invalidStartOnlyIfInvalid" -> (r.status = "INVALID_START" => ValidStartCells(r) = {})
-      [] c = "invalidGoalOnlyIfInvalid" -> (r.status = "INVALID_GOAL" => GoalCells(r) \subseteq r.obst)
+      [] c = "invalidGoalOnlyIfInvalid" -> (* (a planner interrupted while it was still looking for a valid goal state may say INVALID_GOAL) *)
+             (r.status = "INVALID_GOAL" /\ ("budget" \notin DOMAIN r \/ r.evals <= r.budget) => GoalCells(r) \subseteq r.obst)
       [] c = "exactOnlyIfReachable" ->
              (* with a tiny threshold the path ends on the goal state itself (a wider goal region *)
              (* around a jittered goal may reach into neighbouring cells: covered by cellWalk)    *)
